@@ -1,74 +1,124 @@
 (* C18 - Compilation is a deterministic function of the source text.
-   Only statements; every proof is `exact <lemma>` to a lemma proved in Cli/Determinism.v.
+   Only statements; every proof is `exact <lemma>` to a lemma proved in Cli/DetCompile.v.
 
-   REMARK, not a theorem: every model of the compiler in this development is a closed Gallina
-   function, so "the model returns the same text every time" holds by construction and is not
-   claimed as a result.  That the IMPLEMENTATION returns byte-identical text in another process,
-   under another string-hash seed and after other compilations (including failed ones) is what the
-   correspondence check of C18 observes on every run; it cannot be proved about CPython here.
-   What is proved is that the two places where the code could depend on something else than the
-   source text - the order of a de-duplicated variable list, and the counters - do not. *)
+   REMARK, not a theorem: the model of the compiler, Comp/CompileText.v
+       compile_text : (N -> bool) -> str -> cresult
+   is a closed Gallina function of the source text (and of the Unicode table consulted by repr), so
+   "the model returns the same text every time" holds by construction and is not claimed as a result.
+   That the IMPLEMENTATION returns byte-identical text in another process, under another string-hash
+   seed and after other compilations (including failed ones), with fresh or reused options objects,
+   AND that this text is compile_text of the source, is what the correspondence check of C18 observes
+   on every run (harness/props/c18.py); it cannot be proved about CPython here.
+
+   What is proved: the two places where the implementation could depend on something else than the
+   source - the order of a de-duplicated variable list, and the two counters - are made explicit
+   parameters of the model pipeline (compile_text_g ord (a,k)); compile_text is the instance
+   (identity, (0,0)); the declaration order of the real model is the canonical one (a function of
+   the clause syntax); and the pipeline is NOT invariant in either parameter (refutations with
+   concrete sources, evaluated through lexer, parser, visitor, compiler and emitter), so both
+   matter for the bytes. *)
 From Coq Require Import String.
 From Coq Require Import List NArith Bool Arith Permutation.
 Import ListNotations.
-From YP Require Import Base.Str Cli.Determinism.
+From YP Require Import Base.Str Lang.Ast Comp.IR Comp.CompileBody Comp.CompileClause Comp.CompileText
+  Comp.EmitLines Cli.Determinism Cli.DetCompile.
 
-(* filter_free_variables as it is now (list(dict.fromkeys(v for v in variables if v not in bound))):
-   the declared variables are the unbound variables of the expression, each once, ordered by
-   first occurrence in the text. *)
-Theorem C18_dedup_keeps_first_occurrence_order : forall bound vars,
-  let res := filter_free_variables bound vars in
+(* filter_free_variables as it is now (list(dict.fromkeys(v for v in variables if v not in bound))),
+   i.e. the function CompileClause.filter_free that the model compiler calls: the result has no
+   duplicates, contains exactly the variables of `vars` that are not bound, ordered by first
+   occurrence in `vars` (the textual order). *)
+Theorem C18_filter_free_canonical : forall bound vars,
+  let res := filter_free bound vars in
   NoDup res
   /\ (forall v, In v res <-> In v vars /\ ~ In v bound)
   /\ (forall i j x y, nth_error res i = Some x -> nth_error res j = Some y -> i < j ->
         exists ix iy, first_index x vars = Some ix /\ first_index y vars = Some iy /\ ix < iy).
-Proof. exact dedup_keeps_first_occurrence_order. Qed.
-Print Assumptions C18_dedup_keeps_first_occurrence_order.
+Proof. exact filter_free_canonical. Qed.
+Print Assumptions C18_filter_free_canonical.
 
 (* ... and these properties leave no freedom: two lists that have them are equal *)
-Theorem C18_first_occurrence_order_unique : forall vars l1 l2,
-  NoDup l1 -> NoDup l2 -> (forall v, In v l1 <-> In v l2) ->
-  sorted_by_first vars l1 -> sorted_by_first vars l2 -> l1 = l2.
-Proof. exact first_occurrence_order_unique. Qed.
-Print Assumptions C18_first_occurrence_order_unique.
+Theorem C18_canonical_unique : forall bound vars l1 l2,
+  canonical bound vars l1 -> canonical bound vars l2 -> l1 = l2.
+Proof. exact canonical_unique. Qed.
+Print Assumptions C18_canonical_unique.
 
-(* the OLD behaviour (list(set(...)), defect D18): with the set's iteration order as an arbitrary
-   permutation parameter, two orders give different declaration orders and different emitted
-   lines for a clause with two fresh variables.  "The declarations do not depend on the iteration
-   order of the set" is refuted for that code. *)
-Theorem C18_dedup_permutation_invariant_refuted :
-  exists (order1 order2 : list str -> list str) (bound vars : list str),
-    (forall l, Permutation (order1 l) l) /\ (forall l, Permutation (order2 l) l)
-    /\ old_filter_free_variables order1 bound vars <> old_filter_free_variables order2 bound vars
-    /\ declaration_lines (old_filter_free_variables order1 bound vars)
-       <> declaration_lines (old_filter_free_variables order2 bound vars).
-Proof. exact dedup_permutation_invariant_refuted. Qed.
-Print Assumptions C18_dedup_permutation_invariant_refuted.
+(* DECL_ORDER_CANONICAL.  The code of a clause (compile_function_body) is: the aliases `V_X = argN`,
+   then `V_v = variable()` for the canonical list of the head's variables that are not aliased, then
+   the same for the canonical list of the body's variables not yet bound, then loops that contain no
+   assignment at their top level.  Nothing but the clause's syntax determines these lines. *)
+Theorem C18_decl_order_canonical : forall c cnt code cnt', compile_clause c cnt = Some (code, cnt') ->
+  let pos := head_args_by_pos (c_args c) in
+  let aliased := some_list pos in
+  exists fv_head fv_body loops,
+    code = head_aliases 0 pos ++ map declare fv_head ++ map declare fv_body ++ loops
+    /\ canonical aliased (flat_map sterm_vars (c_args c)) fv_head
+    /\ canonical (aliased ++ fv_head) (body_vars (c_body c)) fv_body
+    /\ Forall not_assign loops.
+Proof. exact decl_order_canonical. Qed.
+Print Assumptions C18_decl_order_canonical.
 
-(* label and anonymous-variable counters start at their initial value in every compilation: the
-   result for a source does not depend on what is compiled before or after it in the same process
-   (compile_from = the compiler started from given counter values: arbitrary). *)
-Theorem C18_counters_per_call : forall (A : Type) (compile_from : nat * nat -> str -> A * (nat * nat)) before after src,
-  nth_error (compile_many A compile_from (before ++ src :: after)) (length before) = Some (compile_one A compile_from src)
-  /\ compile_many A compile_from (before ++ src :: after)
-     = map (compile_one A compile_from) before ++ compile_one A compile_from src :: map (compile_one A compile_from) after.
+(* the pipeline with the order function and the initial counters as parameters is, at (identity,
+   (0,0)), the model compiler that the check compares with the implementation *)
+Theorem C18_pipeline_is_compile_text : forall printable s,
+  fst (compile_text_g printable keep gkeep (0, 0) s) = compile_text printable s.
+Proof. exact compile_text_g_id. Qed.
+Print Assumptions C18_pipeline_is_compile_text.
+
+(* the OLD behaviour (list(set(...)), defect D18): the set's iteration order is some permutation
+   chosen by the hash seed.  Two permutations, one source text, two different emitted texts:
+   "the output does not depend on the iteration order" is refuted for that code. *)
+Theorem C18_set_order_refuted :
+  exists (ord1 ord2 : list str -> list str) (s : str) (t1 t2 : str),
+    (forall l, Permutation (ord1 l) l) /\ (forall l, Permutation (ord2 l) l)
+    /\ fst (compile_text_g no_unicode ord1 gkeep (0, 0) s) = CText t1
+    /\ fst (compile_text_g no_unicode ord2 gkeep (0, 0) s) = CText t2
+    /\ t1 <> t2.
+Proof. exact set_order_refuted. Qed.
+Print Assumptions C18_set_order_refuted.
+
+(* the other container whose iteration order reaches the text: the dictionary (name, arity) -> clauses
+   of visitProgram, iterated by compile_program.  The model (group_program) iterates in insertion
+   order, as Python dicts do; if the order were anything else (a set of keys), two orders would give
+   two different texts for `p(a). q(b).` *)
+Theorem C18_group_order_refuted :
+  exists (g1 g2 : list (key * list clause) -> list (key * list clause)) (s : str) (t1 t2 : str),
+    (forall l, Permutation (g1 l) l) /\ (forall l, Permutation (g2 l) l)
+    /\ fst (compile_text_g no_unicode keep g1 (0, 0) s) = CText t1
+    /\ fst (compile_text_g no_unicode keep g2 (0, 0) s) = CText t2
+    /\ t1 <> t2.
+Proof. exact group_order_refuted. Qed.
+Print Assumptions C18_group_order_refuted.
+
+(* "after any other compilations in the same process": a process that creates its visitor and
+   compiler (counters 0) in every call, as _compile_prolog_from_stream does, returns for each source
+   compile_text of that source - whatever was compiled, or failed to compile, before and after.
+   (By construction of `session`; the content is in the next theorem.) *)
+Theorem C18_counters_per_call : forall printable before after src,
+  session printable keep gkeep (before ++ src :: after)
+  = map (compile_text printable) before ++ compile_text printable src :: map (compile_text printable) after.
 Proof. exact counters_per_call. Qed.
 Print Assumptions C18_counters_per_call.
 
-(* what that excludes: counters that survive a call make the second compilation of the same text differ *)
+(* what that excludes: if either counter survived a call (module-level, class-level, stored in the
+   options object), compiling the same text twice in one process would give two different texts -
+   shown for the anonymous-variable counter alone (`p(_).`) and for the label counter alone
+   (`p :- ( a -> b ; c ).`); the per-call process gives the same text twice. *)
 Theorem C18_shared_counters_refuted :
-  exists (compile_from : nat * nat -> str -> str * (nat * nat)) (src : str),
-    compile_many_shared str compile_from (0, 0) [src; src] <> compile_many str compile_from [src; src].
+  (exists s t1 t2, session_shared no_unicode keep gkeep (0, 0) [s; s] = [CText t1; CText t2] /\ t1 <> t2
+                   /\ session no_unicode keep gkeep [s; s] = [CText t1; CText t1])
+  /\ (exists s t1 t2, session_shared no_unicode keep gkeep (0, 0) [s; s] = [CText t1; CText t2] /\ t1 <> t2
+                   /\ session no_unicode keep gkeep [s; s] = [CText t1; CText t1]).
 Proof. exact shared_counters_refuted. Qed.
 Print Assumptions C18_shared_counters_refuted.
 
-(* non-vacuity: the variables of  p(X, [H|T]) :- q(Fa, Fb, _), r(Fb, Fa, H, _)  with X aliased to
-   the argument: declarations in the head H T, in the body Fa Fb x1 x2 *)
+(* non-vacuity: the clause  p(X, [H|T]) :- q(Fa, Fb, _), r(Fb, Fa, H, _).  goes through the whole model
+   compiler; X is aliased to arg1, the head declares H T, the body Fa Fb x1 x2, in this order *)
 Local Open Scope string_scope.
 Local Open Scope list_scope.
 Example C18_nonvacuous :
-  let head := [d "X"; d "H"; d "T"] in
-  let body := [d "Fa"; d "Fb"; d "x1"; d "Fb"; d "Fa"; d "H"; d "x2"] in
-  filter_free_variables [d "X"] head = [d "H"; d "T"]
-  /\ filter_free_variables ([d "X"] ++ [d "H"; d "T"]) body = [d "Fa"; d "Fb"; d "x1"; d "x2"].
-Proof. split; reflexivity. Qed.
+  exists text, compile_text no_unicode (d "p(X, [H|T]) :- q(Fa, Fb, _), r(Fb, Fa, H, _).") = CText text
+  /\ firstn 9 (skipn 7 (split_nl text)) =
+     [d "    V_X = arg1"; d "    V_H = variable()"; d "    V_T = variable()"; d "    V_Fa = variable()";
+      d "    V_Fb = variable()"; d "    V_x1 = variable()"; d "    V_x2 = variable()";
+      d "    for l1 in unify(arg2,listpair(V_H,V_T)):"; d "      for l2 in query('q',[V_Fa,V_Fb,V_x1]):"].
+Proof. eexists. split; vm_compute; reflexivity. Qed.
